@@ -40,6 +40,7 @@ def parts(tier):
         out.append(dict(part="prime", cfg=cfg, shards=2 if q else 4))
         out.append(dict(part="rec", cfg=cfg, shards=2 if q else 6))
     out.append(dict(part="fatal", cfg="asan256", shards=2))
+    out.append(dict(part="fatal", cfg="asan256k", shards=1))
     return out
 
 
@@ -62,6 +63,7 @@ class Env(object):
         self.pool = [R.bn_new() for _ in range(10)]
         self.lenp = R.mem(8, 0)
         self.monty = R.target("bn_mod_pre") == "bn_mod_pre_monty"
+        ctx.default_budget = 20 if ctx.quick else 60     # every case here takes milliseconds; generators raise it
 
     # ------------------------------------------------------------ generators
     def pat(self):
@@ -218,6 +220,7 @@ def run_mod(E):
     MAXM = 40 if E.w8 else 16            # modulus digits
     MXPM = 20 if E.w8 else 16
     NV = K["ERR_NO_VALID"]
+    METH = "monty" if E.monty else "barrt"       # reduction behind bn_mod(c, a, m, u) in this build
 
     def nd(v):
         return max(1, (abs(v).bit_length() + W - 1) // W)
@@ -501,7 +504,7 @@ def run_mod(E):
             return
         rel = "lt" if abs(x) < mm else "ge"
         alias = rng.randrange(2)
-        if not ctx.begin("bn_mod_inv|%s|%s|%s|alias%d" % (sg(x), rel, par, alias), [hx(x), hx(mm)]):
+        if not ctx.begin("bn_mod_inv|%s|%s|%s|%s|alias%d" % (R.target("bn_gcd_ext")[11:], sg(x), rel, par, alias), [hx(x), hx(mm)]):
             return
         R.bn_put(a, x)
         R.bn_put(m, mm)
@@ -587,15 +590,20 @@ def run_mod(E):
         if E.w8 and abs(ev).bit_length() > 200:
             ev >>= abs(ev).bit_length() - 200
         mc = "m1" if mm == 1 else ("odd" if mm & 1 else "even")
-        alias = rng.randrange(3)
-        key = "%s|%s|%s|%s|alias%d" % (fn, sg(x), ecls(ev), mc, alias)
+        alias = rng.choice([0, 0, 1, 2, 3])      # c == a, c == b (exponent), c == m: all used inside the library
+        if R.target(fn) == "bn_mxp_basic" and alias >= 2:
+            # bn_mxp_basic writes c before it has finished reading b and m: c == b is a directed class below, c == m
+            # (may not terminate) a directed class of the fatal part
+            alias = 2 if (alias == 2 and rng.random() < 0.3) else rng.randrange(2)
+        lab = fn if R.target(fn) == fn else fn + ">" + R.target(fn)[3:]
+        key = "%s|%s|%s|%s|%s|%s|alias%d" % (lab, METH, sg(x), "lt" if abs(x) < mm else "ge", ecls(ev), mc, alias)
         if not ctx.begin(key, [hx(x), hx(ev), hx(mm)], nontrivial=bool(x)):
             return
         R.bn_put(a, x)
         R.bn_put(b, ev)
         R.bn_put(m, mm)
         E.junk(c)
-        out = (c, a, b)[alias]
+        out = (c, a, b, m)[alias]
         r = R.call(fn, out, a, b, m)
         mxp_verdict(key, out, x, ev, mm, r, [(a, x), (b, ev), (m, mm)])
 
@@ -604,7 +612,7 @@ def run_mod(E):
         x = E.operand(min(nd(mm) + 2, CAP // 2 - 1))
         ev = rng.choice([0, 1, 2, 3, B - 1, B >> 1, rng.randrange(B), rng.randrange(B)])
         mc = "m1" if mm == 1 else ("odd" if mm & 1 else "even")
-        key = "bn_mxp_dig|%s|%s|%s" % (sg(x), ecls(ev), mc)
+        key = "bn_mxp_dig|%s|%s|%s|%s|%s" % (METH, sg(x), "lt" if abs(x) < mm else "ge", ecls(ev), mc)
         if not ctx.begin(key, [hx(x), hx(ev), hx(mm)], nontrivial=bool(x)):
             return
         R.bn_put(a, x)
@@ -644,7 +652,7 @@ def run_mod(E):
                 exp = exp * pow(x, ev, mm) % mm
         ncls = "n0" if n == 0 else ("n1" if n == 1 else ("n>8" if n > 8 else "n2-8"))
         mc = "m1" if mm == 1 else ("odd" if mm & 1 else "even")
-        key = "%s|%s|%s|%s" % (fn, ncls, "eneg" if neg and n else "e", mc)
+        key = "%s|%s|%s|%s|%s|%s" % (fn, METH, ncls, "eneg" if neg and n else "e", "negbase" if any(x < 0 for x in xs) else "base", mc)
         if not ctx.begin(key, [[hx(x) for x in xs], [hx(v) for v in es], hx(mm)], nontrivial=n > 0):
             return
         R.bn_put(m, mm)
@@ -686,15 +694,18 @@ def run_mod(E):
     crt = S.vf_crt_new()
     crtf = [S.vf_crt_field(crt, i) for i in range(6)]      # n p q dp dq qi
     crt_arg = S.vf_deref(crt)
-    prime_cache = []
+    prime_cache = {}
 
     def two_primes():
+        # balanced primes only: bn_mxp_crt reduces m1 - m2 modulo p by repeated addition (q >> p never finishes,
+        # see the directed case of the fatal part)
         bits = rng.choice([16, 32, 48, 64] if E.w8 else [16, 32, 64, 65, 128, 192, 256])
-        if len(prime_cache) < 12 or rng.random() < 0.2:
-            prime_cache.append(nt.rand_prime(rng, bits))
-            prime_cache.append(nt.rand_prime(rng, bits + rng.choice([0, 0, 1, 7])))
+        cache = prime_cache.setdefault(bits, [])
+        if len(cache) < 4 or rng.random() < 0.2:
+            cache.append(nt.rand_prime(rng, bits))
+            cache.append(nt.rand_prime(rng, bits + rng.choice([0, 0, 1, 3])))
         while True:
-            p, q = rng.sample(prime_cache, 2)
+            p, q = rng.sample(cache, 2)
             if p != q and p > 2 and q > 2:
                 return p, q
 
@@ -702,13 +713,15 @@ def run_mod(E):
         p, q = two_primes()
         n = p * q
         sqr = rng.random() < 0.4
+        if sqr and R.target("bn_mxp") == "bn_mxp_basic":
+            sqr = False     # bn_mxp(t, a, b, t) inside: c == m on bn_mxp_basic (directed class of the fatal part)
         if not sqr:
             x = rng.choice([0, 1, 2, n - 1, rng.randrange(n * n), rng.randrange(n)])
             base = rng.choice([0, 1, n - 1, rng.randrange(n), rng.randrange(n), p, q * 3 % n])
             exp = pow(base, x, n)
             vals = [n, p, q, x % (p - 1), x % (q - 1), pow(q, -1, p)]
             eb, ec = x % (p - 1), x % (q - 1)
-            key = "bn_mxp_crt|mod-n|%s" % ("base-shares-factor" if math.gcd(base, n) != 1 else "unit")
+            key = "bn_mxp_crt|%s|mod-n|%s" % (R.target("bn_mxp"), "base-shares-factor" if math.gcd(base, n) != 1 else "unit")
         else:
             g = n + 1
             msg = rng.choice([0, 1, 2, n - 1, rng.randrange(n)])
@@ -721,7 +734,7 @@ def run_mod(E):
             vals = [n, p, q, hp, hq, pow(q, -1, p)]
             eb, ec = p - 1, q - 1
             exp = msg
-            key = "bn_mxp_crt|mod-n^2|paillier"
+            key = "bn_mxp_crt|%s|mod-n^2|paillier" % R.target("bn_mxp")
         if not ctx.begin(key, [hx(base), hx(eb), hx(ec), hx(p), hx(q), int(sqr)]):
             return
         for ptr, v in zip(crtf, vals):
@@ -741,6 +754,1337 @@ def run_mod(E):
     for _ in range(N):
         E.newpoison()
         guard(ctx, rng.choice(ops))
+
+
+# =============================================================================================== part "num"
+def fib_pair(rng, maxbits):
+    n = rng.randrange(2, int(maxbits / 0.6942) - 1)
+    x, y = 0, 1
+    for _ in range(n):
+        x, y = y, x + y
+    return y, x          # F(n+1), F(n)
+
+
+def run_num(E):
+    ctx, R, rng, W, B, CAP, K = E.ctx, E.R, E.rng, E.W, E.B, E.CAP, E.K
+    a, b, c, d, e, f, m, t0, t1, t2 = E.pool
+    MAXD = 40 if E.w8 else 14
+    dig = R.mem(8, 0)
+    primes = [3, 5, 7, 11, 13, 251, 257, 65537, (1 << 31) - 1, (1 << 61) - 1, (1 << 89) - 1, (1 << 127) - 1,
+              (1 << 255) - 19, 2 ** 256 - 2 ** 224 + 2 ** 192 + 2 ** 96 - 1]
+    for bits in (8, 16, 32, 33, 63, 64, 65, 128, 129, 192, 256) + (() if E.w8 else (384, 521)):
+        primes.append(nt.rand_prime(rng, bits))
+
+    def gcd_pair():
+        """pairs that drive Euclid / Lehmer / binary gcd into their corners"""
+        c_ = rng.randrange(12)
+        mb = MAXD * W
+        if c_ == 0:
+            x, y = fib_pair(rng, mb)
+        elif c_ == 1:       # equal leading digits
+            k = rng.randrange(1, MAXD)
+            h = E.mag(rng.randrange(1, MAXD - k + 1)) or 1
+            x, y = (h << (k * W)) | E.mag(k), (h << (k * W)) | E.mag(k)
+        elif c_ == 2:       # huge quotient at some step (single-precision approximation fails, full division step)
+            y = E.mag(rng.randrange(1, MAXD // 2 + 1)) or 1
+            q = E.mag(rng.randrange(1, 3)) | (1 << (W - 1))
+            x = y * q + rng.randrange(y)
+        elif c_ == 3:       # large common factor
+            g = E.mag(rng.randrange(1, MAXD // 2 + 1)) or 1
+            x, y = g * (E.mag(rng.randrange(1, MAXD // 2)) or 1), g * (E.mag(rng.randrange(1, MAXD // 2)) or 1)
+        elif c_ == 4:
+            x = E.mag(E.ndig(MAXD)) or 1
+            y = x + rng.choice([-1, 0, 1])
+        elif c_ == 5:       # powers of two and multiples
+            x = (E.mag(2) | 1) << rng.randrange(0, 3 * W)
+            y = (E.mag(2) | 1) << rng.randrange(0, 3 * W)
+        elif c_ == 6:
+            y = E.mag(E.ndig(MAXD // 2)) or 1
+            x = y * (E.mag(rng.randrange(1, 3)) or 1)
+        elif c_ == 7:
+            x, y = E.operand(MAXD, signed=False), rng.choice([0, 1, 2, B - 1, B, B + 1])
+        elif c_ == 8:       # continued fraction with chosen partial quotients (many large quotients)
+            x, y = 1, 0
+            for _ in range(rng.randrange(2, 30)):
+                q = rng.choice([1, 1, 2, B - 1, B >> 1, (1 << (W // 2)) - 1, 1 << (W // 2), rng.randrange(1, B)])
+                x, y = q * x + y, x
+                if x.bit_length() > mb - W:
+                    break
+        else:
+            x, y = E.operand(MAXD, signed=False), E.operand(MAXD, signed=False)
+        if rng.random() < 0.5:
+            x, y = y, x
+        if rng.random() < 0.25:
+            x = -x
+        if rng.random() < 0.25:
+            y = -y
+        return x, y
+
+    def rel(x, y):
+        return "lt" if abs(x) < abs(y) else ("eq" if abs(x) == abs(y) else "gt")
+
+    def gcd():
+        fn = rng.choice(["bn_gcd_basic", "bn_gcd_lehme", "bn_gcd_binar", "bn_gcd"])
+        x, y = gcd_pair()
+        alias = rng.randrange(3)
+        if not ctx.begin("%s|%s,%s|%s|alias%d" % (fn, sg(x), sg(y), rel(x, y), alias), [hx(x), hx(y)], nontrivial=bool(x or y)):
+            return
+        R.bn_put(a, x)
+        R.bn_put(b, y)
+        E.junk(c)
+        out = (c, a, b)[alias]
+        r = R.call(fn, out, a, b)
+        if ctx.check(not r.caught, ctx.cur_key + "|unexpected-error", {"err": r.err}):
+            E.out_bn(out, math.gcd(x, y), ctx.cur_key)
+            E.unchanged([(a, x), (b, y)], ctx.cur_key, (out,))
+
+    def gcd_dig():
+        x = E.operand(MAXD)
+        dg = E.pat()
+        if not ctx.begin("bn_gcd_dig|%s|%s" % (sg(x), "d0" if dg == 0 else "d"), [hx(x), hx(dg)], nontrivial=bool(x or dg)):
+            return
+        R.bn_put(a, x)
+        E.junk(c)
+        alias = rng.randrange(2)
+        out = a if alias else c
+        r = R.call("bn_gcd_dig", out, a, dg)
+        if ctx.check(not r.caught, ctx.cur_key + "|unexpected-error", {"err": r.err}):
+            E.out_bn(out, math.gcd(x, dg), ctx.cur_key)
+
+    def gcd_ext():
+        fn = rng.choice(["bn_gcd_ext_basic", "bn_gcd_ext_lehme", "bn_gcd_ext_binar", "bn_gcd_ext"])
+        x, y = gcd_pair()
+        enull = rng.random() < 0.15
+        # alias patterns used inside the library: d == a (bn_mod_inv(c, c, m)); 0 = none
+        alias = rng.choice([0, 0, 0, 1, 2])      # 1: d == a, 2: e == b
+        if enull and alias == 2:
+            alias = 0
+        unit = "|bdiv" if y and x % y == 0 else ""        # b divides a (includes b = +-1 and |a| = |b|)
+        lab = fn if R.target(fn) == fn else fn + ">" + R.target(fn)[11:]
+        key = "%s|%s,%s|%s%s|%s|alias%d" % (lab, sg(x), sg(y), rel(x, y), unit, "e-null" if enull else "e", alias)
+        if not ctx.begin(key, [hx(x), hx(y)], nontrivial=bool(x or y)):
+            return
+        R.bn_put(a, x)
+        R.bn_put(b, y)
+        E.junk(c, d, e)
+        pd = a if alias == 1 else d
+        pe = 0 if enull else (b if alias == 2 else e)
+        r = R.call(fn, c, pd, pe, a, b)
+        if not ctx.check(not r.caught, key + "|unexpected-error", {"err": r.err}):
+            return
+        g = math.gcd(x, y)
+        E.out_bn(c, g, key, "gcd")
+        dv = R.bn_get(pd)
+        ctx.check(dv[3], key + "|normal-form", {"d": repr(dv)})
+        if enull:
+            okb = dv[0] is not None and ((g - dv[0] * x) % y == 0 if y else dv[0] * x == g)
+            ctx.check(okb, key + "|bezout", {"g": hx(g), "d": hx(dv[0] or 0)})
+        else:
+            ev = R.bn_get(pe)
+            ctx.check(ev[3], key + "|normal-form", {"e": repr(ev)})
+            okb = dv[0] is not None and ev[0] is not None and dv[0] * x + ev[0] * y == g
+            ctx.check(okb, key + "|bezout", {"g": hx(g), "d": hx(dv[0] or 0), "e": hx(ev[0] or 0)})
+        E.unchanged([(a, x), (b, y)], key, (pd, pe))
+
+    def gcd_ext_dig():
+        x = E.operand(MAXD)
+        dg = E.pat()
+        enull = rng.random() < 0.15
+        key = "bn_gcd_ext_dig|%s|%s|%s" % (sg(x), "d0" if dg == 0 else ("d1" if dg == 1 else "d"), "e-null" if enull else "e")
+        if not ctx.begin(key, [hx(x), hx(dg)], nontrivial=bool(x or dg)):
+            return
+        R.bn_put(a, x)
+        E.junk(c, d, e)
+        r = R.call("bn_gcd_ext_dig", c, d, 0 if enull else e, a, dg)
+        if not ctx.check(not r.caught, key + "|unexpected-error", {"err": r.err}):
+            return
+        g = math.gcd(x, dg)
+        E.out_bn(c, g, key, "gcd")
+        dv = R.bn_val(d)
+        if enull:
+            ctx.check(dv is not None and ((g - dv * x) % dg == 0 if dg else dv * x == g), key + "|bezout", {"d": hx(dv or 0)})
+        else:
+            ev = R.bn_val(e)
+            ctx.check(dv is not None and ev is not None and dv * x + ev * dg == g, key + "|bezout", {"g": hx(g), "d": hx(dv or 0), "e": hx(ev or 0)})
+        E.unchanged([(a, x)], key)
+
+    def gcd_ext_mid():
+        # documented use: short lattice vectors for k = k0 + k1*a (mod b): coprime a < b, b > 1
+        while True:
+            y = E.mag(rng.choice([1, 2, 2, 3, 4, 4, min(8, MAXD)])) | 1
+            if rng.random() < 0.4:
+                y = rng.choice(primes)
+            x = rng.randrange(2, y) if y > 3 else 2
+            if rng.random() < 0.2:
+                x = rng.choice([2, 3, y - 1, y - 2, math.isqrt(y), math.isqrt(y) + 1]) % y
+            if x > 1 and y > 4 and math.gcd(x, y) == 1:
+                break
+        swap = rng.random() < 0.3
+        # x < sqrt(y): the remainder sequence is below sqrt(y) after the first division step already
+        key = "bn_gcd_ext_mid|coprime|%s|%s" % ("a>b" if swap else "a<b", "min<sqrt(max)" if x * x < y else "min>=sqrt(max)")
+        if not ctx.begin(key, [hx(x), hx(y)]):
+            return
+        R.bn_put(a, y if swap else x)
+        R.bn_put(b, x if swap else y)
+        SENT = (1 << 69) + 12345
+        for p in (c, d, e, f):
+            R.bn_put(p, SENT)
+        r = R.call("bn_gcd_ext_mid", c, d, e, f, a, b)
+        if not ctx.check(not r.caught, key + "|unexpected-error", {"err": r.err}):
+            return
+        v = [R.bn_get(p) for p in (c, d, e, f)]
+        if not ctx.check(all(q[0] is not None and q[3] for q in v), key + "|normal-form", repr(v)):
+            return
+        cv, dv, ev, fv = [q[0] for q in v]
+        ctx.check(SENT not in (cv, dv, ev, fv), key + "|output-not-written", [hx(q) for q in (cv, dv, ev, fv)])
+        det = {"c": hx(cv), "d": hx(dv), "e": hx(ev), "f": hx(fv)}
+        # both vectors lie in the lattice {(s, t): s + t*x = 0 mod y} (v2 up to the documented sign of its first entry)
+        ctx.check((cv + dv * x) % y == 0, key + "|v1-not-in-lattice", det)
+        ctx.check((ev + fv * x) % y == 0 or (-ev + fv * x) % y == 0, key + "|v2-not-in-lattice", det)
+        # they form a basis of it (|det| = y) and v1 is short (both entries at most sqrt(y) + 1)
+        ctx.check(abs(cv * fv - dv * ev) == y, key + "|not-a-basis", det)
+        s = math.isqrt(y) + 1
+        ctx.check(abs(cv) <= s and abs(dv) <= s, key + "|v1-not-short", det)
+        E.unchanged([(a, y if swap else x), (b, x if swap else y)], key)
+
+    def lcm():
+        x, y = gcd_pair()
+        while (abs(x).bit_length() + abs(y).bit_length()) > (CAP - 2) * W:
+            x >>= W
+            y >>= W
+        zz = "|both-zero" if x == 0 and y == 0 else ""
+        alias = rng.randrange(3)
+        key = "bn_lcm|%s,%s%s|alias%d" % (sg(x), sg(y), zz, alias)
+        if not ctx.begin(key, [hx(x), hx(y)], nontrivial=bool(x or y)):
+            return
+        R.bn_put(a, x)
+        R.bn_put(b, y)
+        E.junk(c)
+        out = (c, a, b)[alias]
+        r = R.call("bn_lcm", out, a, b)
+        if ctx.check(not r.caught, key + "|unexpected-error", {"err": r.err}):
+            g = math.gcd(x, y)
+            E.out_bn(out, abs(x * y) // g if g else 0, key)
+            E.unchanged([(a, x), (b, y)], key, (out,))
+
+    def symbol_arg(n):
+        c_ = rng.randrange(10)
+        if c_ == 0:
+            x = rng.choice([0, 1, 2, 3, n - 1, n, n + 1, 2 * n, n * n])
+        elif c_ == 1:
+            x = n * (E.mag(2) or 1)
+        elif c_ == 2:
+            x = E.mag(rng.randrange(1, 4))
+            x = x * x % n
+        elif c_ == 3:
+            x = E.operand(min(MAXD, max(1, n.bit_length() // W + 2)), signed=False)
+        else:
+            x = rng.randrange(n) if n > 1 else 0
+        if rng.random() < 0.25:
+            x = -x
+        return x
+
+    def smb_leg():
+        p = rng.choice(primes)
+        x = symbol_arg(p)
+        key = "bn_smb_leg|%s|%s|%s" % (R.target("bn_mxp")[3:], sg(x), "lt" if abs(x) < p else "ge")
+        if not ctx.begin(key, [hx(x), hx(p)], nontrivial=bool(x)):
+            return
+        R.bn_put(a, x)
+        R.bn_put(b, p)
+        r = R.call("bn_smb_leg", a, b)
+        if ctx.check(not r.caught, key + "|unexpected-error", {"err": r.err}):
+            ctx.check(r.i == nt.jacobi(x, p), key + "|value", {"got": r.i, "exp": nt.jacobi(x, p)})
+            E.unchanged([(a, x), (b, p)], key)
+
+    def smb_jac():
+        c_ = rng.randrange(8)
+        if c_ == 0:
+            n = rng.choice(primes)
+        elif c_ == 1:
+            n = rng.choice(primes) * rng.choice(primes)
+        elif c_ == 2:
+            n = rng.choice([1, 3, 9, 15, 21, 25, 27, 45, 255, 257, B - 1, B + 1, (B >> 1) + 1])
+        elif c_ == 3:
+            n = (E.mag(rng.randrange(1, 4)) | 1) ** 2
+        else:
+            n = E.odd_modulus(MAXD)
+        bad = rng.random() < 0.04
+        if bad:
+            n = rng.choice([n + 1, -n, 0])
+            if not ctx.begin("bn_smb_jac|modulus-even-or-negative", [hx(n)]):
+                return
+            R.bn_put(a, 5)
+            R.bn_put(b, n)
+            r = R.call("bn_smb_jac", a, b)
+            ctx.check(r.caught, ctx.cur_key + "|accepted", {"ret": r.i})
+            return
+        x = symbol_arg(n)
+        exp = nt.jacobi(x, n)
+        key = "bn_smb_jac|w%d|%s|%s|%s" % (W, sg(x), "lt" if abs(x) < n else "ge", "n1" if n == 1 else ("1digit" if n < B else "multi"))
+        if not ctx.begin(key, [hx(x), hx(n)], nontrivial=bool(x)):
+            return
+        R.bn_put(a, x)
+        R.bn_put(b, n)
+        r = R.call("bn_smb_jac", a, b)
+        if ctx.check(not r.caught, key + "|unexpected-error", {"err": r.err}):
+            ctx.check(r.i == exp, key + "|value", {"got": r.i, "exp": exp})
+            E.unchanged([(a, x), (b, n)], key)
+
+    def srt():
+        c_ = rng.randrange(8)
+        if c_ == 0:
+            x = rng.choice([0, 1, 2, 3, 4, 8, 9, 15, 16, 17, B - 1, B, B * B - 1, B * B])
+        elif c_ in (1, 2):
+            r0 = E.mag(E.ndig(MAXD // 2)) or 1
+            x = r0 * r0 + rng.choice([-1, 0, 0, 1, 2 * r0, 2 * r0 - 1])
+        elif c_ == 3:
+            k = rng.randrange(1, MAXD * W)
+            x = (1 << k) - rng.randrange(2)
+        else:
+            x = E.operand(MAXD, signed=False)
+        if rng.random() < 0.05:
+            x = -abs(x) - 1
+        if x < 0:
+            if not ctx.begin("bn_srt|neg", [hx(x)]):
+                return
+            R.bn_put(a, x)
+            E.junk(c)
+            r = R.call("bn_srt", c, a)
+            ctx.check(r.caught, ctx.cur_key + "|accepted", None)
+            return
+        s = math.isqrt(x)
+        alias = rng.randrange(2)
+        key = "bn_srt|%s|%s|alias%d" % ("zero" if x == 0 else "pos", "square" if s * s == x else "nonsquare", alias)
+        if not ctx.begin(key, [hx(x)], nontrivial=bool(x)):
+            return
+        R.bn_put(a, x)
+        E.junk(c)
+        out = a if alias else c
+        r = R.call("bn_srt", out, a)
+        if ctx.check(not r.caught, key + "|unexpected-error", {"err": r.err}):
+            E.out_bn(out, s, key)
+            E.unchanged([(a, x)], key, (out,))
+
+    def poly_mul_root(poly, r0, q):
+        """(x - r0) * poly mod q, coefficients low to high"""
+        out = [0] * (len(poly) + 1)
+        for i, cf in enumerate(poly):
+            out[i + 1] = (out[i + 1] + cf) % q
+            out[i] = (out[i] - r0 * cf) % q
+        return out
+
+    def lag():
+        q = rng.choice(primes) if rng.random() < 0.7 else E.modulus(min(MAXD, 8))
+        n = rng.choice([0, 1, 1, 2, 3, 4, 5, 8])
+        roots = []
+        for _ in range(n):
+            roots.append(rng.choice([0, 1, q - 1, rng.randrange(q), rng.randrange(q), rng.randrange(min(q, 50))]))
+        if n and rng.random() < 0.3:
+            roots[rng.randrange(n)] = roots[0]          # repeated root
+        zc = "|root0-zero" if n == 1 and roots[0] == 0 else ""
+        key = "bn_lag|n%s%s" % ("0" if n == 0 else ("1" if n == 1 else ">1"), zc)
+        if not ctx.begin(key, [[hx(x) for x in roots], hx(q)], nontrivial=n > 0):
+            return
+        pa, pc = E.arr_new(n), E.arr_new(n + 1)
+        try:
+            for i, x in enumerate(roots):
+                R.bn_put(E.arr_at(pa, i), x)
+            for i in range(n + 1):
+                R.bn_put(E.arr_at(pc, i), rng.getrandbits(66) | 1)
+            R.bn_put(m, q)
+            r = R.call("bn_lag", pc, pa, m, n)
+            if not ctx.check(not r.caught, key + "|unexpected-error", {"err": r.err}):
+                return
+            poly = [1 % q]
+            for x in roots:
+                poly = poly_mul_root(poly, x, q)
+            got = [R.bn_get(E.arr_at(pc, i)) for i in range(n + 1)]
+            vals = [g[0] for g in got]
+            ctx.check(all(v is not None and v % q == ex for v, ex in zip(vals, poly)), key + "|value",
+                      {"got": [hx(v or 0) for v in vals], "exp": [hx(v) for v in poly]})
+            ctx.check(all(v is not None and 0 <= v < q and g[3] for v, g in zip(vals, got)), key + "|not-reduced",
+                      {"got": [hx(v or 0) for v in vals], "q": hx(q)})
+            for i, x in enumerate(roots):
+                E.unchanged([(E.arr_at(pa, i), x)], key)
+            # bn_evl on the coefficients just produced: every root evaluates to zero (n+1 coefficients, count = n+1)
+            if n and all(v is not None for v in vals):
+                x = rng.choice(roots)
+                R.bn_put(a, x)
+                E.junk(c)
+                r = R.call("bn_evl", c, pc, a, m, n + 1)
+                if ctx.check(not r.caught, "bn_evl|root-of-lag|unexpected-error", {"err": r.err}):
+                    ctx.check(R.bn_val(c) == 0, "bn_evl|root-of-lag|value", {"got": hx(R.bn_val(c) or 0), "root": hx(x)})
+        finally:
+            R.free(pa)
+            R.free(pc)
+
+    def evl():
+        q = rng.choice(primes) if rng.random() < 0.7 else E.modulus(min(MAXD, 8))
+        n = rng.choice([0, 1, 2, 3, 4, 8])
+        cf = [rng.choice([0, 1, q - 1, rng.randrange(q), rng.randrange(q)]) for _ in range(n + 1)]
+        x = rng.choice([0, 1, q - 1, rng.randrange(q), rng.randrange(q)])
+        doc = sum(v * pow(x, j, q) for j, v in enumerate(cf)) % q            # header: n = degree, n + 1 coefficients
+        code = sum(v * pow(x, j, q) for j, v in enumerate(cf[:n])) % q       # every caller: n = number of coefficients
+        key = "bn_evl|n%s" % ("0" if n == 0 else ">0")
+        if not ctx.begin(key, [[hx(v) for v in cf], hx(x), hx(q), n], nontrivial=True):
+            return
+        pa = E.arr_new(n + 1)
+        try:
+            for i, v in enumerate(cf):
+                R.bn_put(E.arr_at(pa, i), v)
+            R.bn_put(a, x)
+            R.bn_put(m, q)
+            E.junk(c)
+            r = R.call("bn_evl", c, pa, a, m, n)
+            if not ctx.check(not r.caught, key + "|unexpected-error", {"err": r.err}):
+                return
+            got = R.bn_get(c)
+            if doc != code and got[0] == code:
+                # de-facto semantics (n coefficients) - what mpc_sss_gen relies on; differs from the header
+                ctx.fail(key + "|leading-coefficient-ignored", {"got": hx(got[0]), "documented": hx(doc), "n": n})
+                ctx.ok()
+            else:
+                ctx.check(got[0] in (doc, code), key + "|value", {"got": hx(got[0] or 0), "documented": hx(doc), "n-coefficients": hx(code)})
+            ctx.check(got[3], key + "|normal-form", repr(got))
+        finally:
+            R.free(pa)
+
+    ops = ([gcd] * 6 + [gcd_dig] + [gcd_ext] * 8 + [gcd_ext_dig] * 2 + [gcd_ext_mid] * 3 + [lcm] * 2 + [smb_leg] * 2 + [smb_jac] * 5 +
+           [srt] * 3 + [lag] * 2 + [evl] * 2)
+    N = ctx.n(1500 if E.w8 else 3500, 70000)
+    for _ in range(N):
+        E.newpoison()
+        guard(ctx, rng.choice(ops))
+
+
+# =============================================================================================== part "prime"
+_COMPOSITES = None
+
+
+def composites():
+    global _COMPOSITES
+    if _COMPOSITES is None:
+        nt.selftest()
+        _COMPOSITES = nt.build_composites()
+    return _COMPOSITES
+
+
+def run_prime(E):
+    ctx, R, rng, W, B, CAP, K = E.ctx, E.R, E.rng, E.W, E.B, E.CAP, E.K
+    a, b, c = E.pool[:3]
+    comps = composites()
+    ctx.note("hostile_composites", {t: sum(1 for _, tg in comps if tg == t) for t in sorted(set(tg for _, tg in comps))})
+    table_max = 0xDF if E.w8 else 0xE57              # largest entry of the trial-division table of this digit size
+    big = 260 if E.w8 else 1100                      # bit limit for the expensive tests in the quick tier
+    sol_big = 140 if E.w8 else 600
+
+    plist = list(nt.SMALL_PRIMES[:70]) + [211, 223, 227, 229, 251, 257, 3671, 3673, 3677, 65537]
+    plist += [(1 << k) - 1 for k in (13, 17, 19, 31, 61, 89, 107, 127, 521)]
+    plist += [(1 << 255) - 19, 2 ** 256 - 2 ** 224 + 2 ** 192 + 2 ** 96 - 1, 2 ** 256 - 2 ** 32 - 977]
+    for bits in (9, 12, 16, 31, 32, 33, 63, 64, 65, 100, 128, 192, 256, 384, 512, 768, 1024):
+        plist.append(nt.rand_prime(rng, bits))
+    plist = [p for p in plist if p.bit_length() <= big]
+
+    def candidate():
+        c_ = rng.randrange(10)
+        if c_ < 3:
+            return rng.choice(plist), "prime"
+        if c_ < 6:
+            n, tag = rng.choice(comps)
+            return n, tag
+        if c_ == 6:
+            return rng.choice([0, 1, 2, 3, 4, 5, 6, 8, 9, 15, 21, 25, 27, 49, 255, 256, 341, 645]), "tiny"
+        if c_ == 7:       # product of two primes just above the trial-division table
+            p, q = rng.sample([3673, 3677, 3691, 3697, 3701, 3709, 3719, 3727] if not E.w8 else [227, 229, 233, 239, 241, 251, 257, 263], 2)
+            return p * q, "no-small-factor"
+        if c_ == 8:
+            return (rng.getrandbits(rng.choice([16, 32, 64, 128, 256])) | 1) + 2, "random-odd"
+        return -rng.choice(plist[:40] + [1, 4, 9]), "negative"
+
+    def is_prime():
+        n, tag = candidate()
+        if n.bit_length() > big:
+            n, tag = rng.choice(plist[:80]), "prime"
+        truth = nt.is_prime(n, rng) if n > 0 else False
+        if tag not in ("tiny", "negative", "random-odd"):
+            assert truth == (tag == "prime"), (n, tag)
+        fn = rng.choice(["bn_is_prime", "bn_is_prime_basic", "bn_is_prime_rabin", "bn_is_prime_solov"])
+        cls = tag if tag != "random-odd" else ("random-prime" if truth else "random-composite")
+        if tag == "tiny":
+            cls = "tiny-prime" if truth else "tiny-composite"
+        if fn == "bn_is_prime_solov":
+            # documented for a > 2; 1 and 2 never terminate (directed class of the fatal part); even a > 2 own class
+            if n < 3:
+                return
+            if n % 2 == 0:
+                cls = "even"
+            if n.bit_length() > sol_big:
+                return
+        if fn == "bn_is_prime_rabin" and n < 0:
+            cls = "negative"
+        key = "%s|%s" % (fn if fn != "bn_is_prime_solov" else fn + "|w%d,%s" % (W, R.target("bn_mxp")[3:]), cls)
+        if not ctx.begin(key, [hx(n), tag], nontrivial=n > 3):
+            return
+        R.bn_put(a, n)
+        r = R.call(fn, a)
+        E.unchanged([(a, n)], key)
+        if fn == "bn_is_prime_solov" and n % 2 == 0:
+            # an even number is not prime: the verdict must be 0; the test itself is only defined for odd moduli, an
+            # error on top of the verdict is recorded separately
+            ctx.check(r.i == 0, key + "|accepted-composite", {"ret": r.i})
+            ctx.check(not r.caught, key + "|error-raised", {"err": r.err})
+            return
+        if not ctx.check(not r.caught, key + "|unexpected-error", {"err": r.err, "ret": r.i}):
+            return
+        if fn == "bn_is_prime_basic":
+            # trial division: must accept every prime and reject whatever has a factor in its table
+            if truth:
+                ctx.check(r.i == 1, key + "|rejected-prime", {"ret": r.i})
+            else:
+                smallf = n > 1 and any(n % q == 0 for q in nt.SMALL_PRIMES if q <= table_max)
+                if n in (0, 1) or smallf:
+                    ctx.check(r.i == 0, key + "|accepted-composite", {"ret": r.i})
+                else:
+                    ctx.check(r.i in (0, 1), key + "|return-value", {"ret": r.i})
+            return
+        if truth:
+            ctx.check(r.i == 1, key + "|rejected-prime", {"ret": r.i})
+        else:
+            ctx.check(r.i == 0, key + "|accepted-composite", {"ret": r.i})
+
+    def reseed():
+        sd = R.put(rng.getrandbits(256).to_bytes(32, "big"))
+        R.call("rand_seed", sd, 32)
+        R.free(sd)
+
+    def gen_prime():
+        fn = rng.choice(["bn_gen_prime_basic", "bn_gen_prime_basic", "bn_gen_prime_safep", "bn_gen_prime_stron", "bn_gen_prime"])
+        if fn in ("bn_gen_prime_basic", "bn_gen_prime"):
+            bits = rng.choice([2, 3, 4, 5, 8, 16, 31, 32, 33, 63, 64, 65, 96] + ([] if E.w8 else [128, 160, 256]))
+        elif fn == "bn_gen_prime_safep":
+            bits = rng.choice([3, 4, 5, 8, 12, 16, 24, 32] + ([] if E.w8 else [40, 48]))
+        else:
+            # s and t are drawn with bits/2 - digit/2 bits: the smallest sizes that leave room for them
+            bits = rng.choice([24, 32, 40, 48] if E.w8 else [96, 112, 128])
+        key = "%s|bits%s" % (fn, ("=%d" % bits) if bits <= 8 else ("<=64" if bits <= 64 else ">64"))
+        if not ctx.begin(key, [bits], budget=120):
+            return
+        reseed()
+        E.junk(a)
+        r = R.call(fn, a, bits)
+        if not ctx.check(not r.caught, key + "|unexpected-error", {"err": r.err}):
+            return
+        v, used, sign, normal = R.bn_get(a)
+        det = {"bits": bits, "got": hx(v or 0)}
+        ctx.check(normal and v is not None and v > 0, key + "|normal-form", det)
+        if v is None:
+            return
+        ctx.check(nt.is_prime(v, rng), key + "|composite", det)
+        ctx.check(v.bit_length() == bits, key + "|bit-length", det)
+        if fn == "bn_gen_prime_safep":
+            ctx.check(nt.is_prime((v - 1) // 2, rng), key + "|not-safe", det)
+        if fn == "bn_gen_prime_stron" and bits <= 48 and nt.is_prime(v, rng):
+            # Gordon's structure, as evidence (the header's "(a-1)/2, (a+1)/2 prime" cannot hold for any a > 5)
+            fm = max(nt.factor_small(v - 1, rng))
+            fp = max(nt.factor_small(v + 1, rng))
+            ctx.add("stron_cases", 1)
+            ctx.add("stron_largest_factor_bits_of_p-1_sum", fm.bit_length())
+            ctx.add("stron_largest_factor_bits_of_p+1_sum", fp.bit_length())
+            ctx.add("stron_requested_bits_sum", bits)
+
+    def gen_factor():
+        abits = rng.choice([8, 12, 16] if E.w8 else [8, 16, 32, 64])
+        bbits = abits + rng.choice([16, 24, 32] if E.w8 else [16, 32, 64])
+        key = "bn_gen_prime_factor|ok"
+        bad = rng.random() < 0.1
+        if bad:
+            bbits = rng.choice([abits, abits - 1])
+            key = "bn_gen_prime_factor|bbits<=abits"
+        if not ctx.begin(key, [abits, bbits], budget=120):
+            return
+        reseed()
+        E.junk(a, b)
+        r = R.call("bn_gen_prime_factor", a, b, abits, bbits)
+        if bad:
+            ctx.check(r.i == K["RLC_ERR"] or r.caught, key + "|accepted", {"ret": r.i})
+            return
+        if not ctx.check(not r.caught and r.i == K["RLC_OK"], key + "|unexpected-error", {"err": r.err, "ret": r.i}):
+            return
+        va, vb = R.bn_val(a), R.bn_val(b)
+        det = {"a": hx(va or 0), "b": hx(vb or 0), "abits": abits, "bbits": bbits}
+        ctx.check(va is not None and nt.is_prime(va, rng) and va.bit_length() == abits, key + "|factor", det)
+        ctx.check(vb is not None and nt.is_prime(vb, rng) and vb.bit_length() == bbits, key + "|prime", det)
+        ctx.check(va and vb and (vb - 1) % va == 0, key + "|divisibility", det)
+
+    def factor():
+        # Pollard p-1 with a fixed bound: may or may not find a factor; whatever it returns must be one
+        c_ = rng.randrange(5)
+        if c_ == 0:
+            n = rng.choice(comps)[0]
+        elif c_ == 1:
+            n = rng.choice(plist)
+        elif c_ == 2:
+            n = rng.choice([257, 241, 211, 181, 163]) * nt.rand_prime(rng, 24 if E.w8 else 48)      # p - 1 smooth
+        elif c_ == 3:
+            n = 2 * (rng.getrandbits(40) + 2)
+        else:
+            n = (rng.getrandbits(48) | 1) + 2
+        if n.bit_length() > (64 if E.w8 else 130):
+            n = 1729 * 2047
+        even = n % 2 == 0
+        key = "bn_factor|%s" % ("even" if even else ("prime" if nt.is_prime(n, rng) else "odd-composite"))
+        if not ctx.begin(key, [hx(n)], budget=120):
+            return
+        R.bn_put(a, n)
+        E.junk(c)
+        r = R.call("bn_factor", c, a)
+        if not ctx.check(not r.caught, key + "|unexpected-error", {"err": r.err}):
+            return
+        v = R.bn_val(c)
+        if r.i == 1:
+            ctx.check(v is not None and v > 1 and n % v == 0 and (v < n or even), key + "|not-a-factor", {"n": hx(n), "c": hx(v or 0)})
+            ctx.add("bn_factor_found", 1)
+        else:
+            ctx.check(r.i == 0, key + "|return-value", {"ret": r.i})
+            ctx.add("bn_factor_not_found", 1)
+        E.unchanged([(a, n)], key)
+
+    def is_factor():
+        x = E.operand(6)
+        y = E.operand(3, zero_ok=False)
+        if rng.random() < 0.5:
+            x = y * E.operand(3)
+        key = "bn_is_factor|%s,%s|%s" % (sg(y), sg(x), "divides" if x % y == 0 else "does-not")
+        if not ctx.begin(key, [hx(y), hx(x)], nontrivial=bool(x)):
+            return
+        R.bn_put(c, y)
+        R.bn_put(a, x)
+        r = R.call("bn_is_factor", c, a)
+        if ctx.check(not r.caught, key + "|unexpected-error", {"err": r.err}):
+            ctx.check(r.i == int(x % y == 0), key + "|value", {"ret": r.i})
+            E.unchanged([(c, y), (a, x)], key)
+
+    # every hostile composite and every listed prime goes through every test once (directed enumeration, split over shards)
+    i = 0
+    for n, tag in [(p, "prime") for p in plist] + comps:
+        for fn in ("bn_is_prime", "bn_is_prime_rabin", "bn_is_prime_solov", "bn_is_prime_basic"):
+            i += 1
+            if not ctx.mine(i):
+                continue
+            if fn == "bn_is_prime_solov" and (n < 3 or n.bit_length() > sol_big):
+                continue
+            if n.bit_length() > big:
+                continue
+
+            def one(n=n, tag=tag, fn=fn):
+                key = "%s|%s" % (fn if fn != "bn_is_prime_solov" else fn + "|w%d,%s" % (W, R.target("bn_mxp")[3:]), tag)
+                if not ctx.begin(key, [hx(n), tag], budget=60):
+                    return
+                R.bn_put(a, n)
+                r = R.call(fn, a)
+                if not ctx.check(not r.caught, key + "|unexpected-error", {"err": r.err}):
+                    return
+                if tag == "prime":
+                    ctx.check(r.i == 1, key + "|rejected-prime", {"ret": r.i})
+                elif fn != "bn_is_prime_basic" or any(n % q == 0 for q in nt.SMALL_PRIMES if q <= table_max):
+                    ctx.check(r.i == 0, key + "|accepted-composite", {"ret": r.i})
+            guard(ctx, one)
+    ops = [is_prime] * 12 + [gen_prime] * 3 + [gen_factor] + [is_factor] * 2
+    N = ctx.n(250 if E.w8 else 500, 12000)
+    for _ in range(N):
+        E.newpoison()
+        guard(ctx, rng.choice(ops))
+    for _ in range(ctx.n(1 if not E.w8 else 3, 40)):
+        guard(ctx, factor)
+
+
+# =============================================================================================== part "rec"
+def scalar(E, maxbits):
+    """structured scalars: 0, 1, 2^k, 2^k-1, long runs, alternating, maximal length, random"""
+    rng = E.rng
+    bits = rng.choice([1, 2, 3, 7, 8, 9, 63, 64, 65, 127, 128, 255, 256, 257, maxbits, maxbits, rng.randrange(1, maxbits + 1)])
+    bits = min(bits, maxbits)
+    c_ = rng.randrange(12)
+    if c_ == 0:
+        v = rng.choice([0, 1, 2, 3, 4, 5])
+    elif c_ == 1:
+        v = 1 << (bits - 1)
+    elif c_ == 2:
+        v = (1 << bits) - 1
+    elif c_ == 3:
+        v = (1 << (bits - 1)) + 1
+    elif c_ == 4:
+        v = int(("10" * bits)[:bits], 2)
+    elif c_ == 5:
+        v = int(("1100" * bits)[:bits], 2)
+    elif c_ == 6:       # long runs of ones and zeros
+        v = 0
+        pos = 0
+        while pos < bits:
+            run = rng.choice([1, 2, 7, 8, 9, 31, 64, 65, 100])
+            if rng.random() < 0.5:
+                v |= ((1 << run) - 1) << pos
+            pos += run
+        v &= (1 << bits) - 1
+    elif c_ == 7:
+        v = (1 << bits) - (1 << (bits // 2))
+    elif c_ == 8:       # carries rippling into a new top digit: all ones above a few random low bits
+        v = ((1 << bits) - 1) ^ rng.getrandbits(min(bits, 6))
+    else:
+        v = rng.getrandbits(bits)
+    return v
+
+
+def run_rec(E):
+    ctx, R, rng, W, B, CAP, K = E.ctx, E.R, E.rng, E.W, E.B, E.CAP, E.K
+    a, b, c, d, e, f, m, t0, t1, t2 = E.pool
+    MAXB = R.BN_BITS
+    NB = K["ERR_NO_BUFFER"]
+    FILL = 0x55
+
+    def buf_call(fn, cap, args_after, lenv=None):
+        """exact-size output block of cap bytes, *len = lenv or cap; -> (result, returned *len, bytes)"""
+        buf = R.mem(max(cap, 1), FILL)
+        E.setlen(cap if lenv is None else lenv)
+        r = R.call(fn, buf, E.lenp, *args_after)
+        ln = E.getlen()
+        data = R.get(buf, cap) if cap else b""
+        R.free(buf)
+        return r, ln, data
+
+    def too_short(fn, key, need, args_after):
+        """*len one below the documented minimum: ERR_NO_BUFFER, nothing written (the block has exactly that size)"""
+        if need < 1:
+            return
+        r, ln, data = buf_call(fn, need - 1, args_after)
+        ctx.check(r.caught and r.err == NB, key + "|short-buffer-accepted", {"need": need, "caught": r.caught, "err": r.err, "len": ln})
+        ctx.check(data == bytes([FILL]) * (need - 1), key + "|short-buffer-written", None)
+
+    def kcls(k, w=None):
+        s = "zero" if k == 0 else ("neg" if k < 0 else "pos")
+        return s
+
+    def signed_scalar():
+        k = scalar(E, MAXB)
+        if rng.random() < 0.15:
+            k = -k
+        return k
+
+    # ------------------------------------------------------------------ fixed window
+    def rec_win():
+        w = rng.randrange(2, 9)
+        k = signed_scalar()
+        if rng.random() < 0.25:
+            k = rng.choice([0, 1, 2, 3, (1 << (w - 1)) - 1, 1 << (w - 1), (1 << w) - 1, 1 << w])       # bits(k) <= w
+        l = abs(k).bit_length()
+        need = max((l + w - 1) // w, 1)
+        key = "bn_rec_win|w%d|%s|%s" % (w, kcls(k), "bits<w" if l < w else ("bits=w" if l == w else "bits>w"))
+        if not ctx.begin(key, [hx(k), w], nontrivial=bool(k)):
+            return
+        R.bn_put(a, k)
+        extra = rng.choice([0, 0, 0, 1, 5])
+        r, ln, data = buf_call("bn_rec_win", need + extra, (a, w))
+        if ctx.check(not r.caught, key + "|unexpected-error", {"err": r.err}):
+            dg = list(data[:ln])
+            ctx.check(ln <= need, key + "|length", {"len": ln, "bound": need})
+            ctx.check(sum(x << (w * i) for i, x in enumerate(dg)) == abs(k), key + "|decode", {"digits": dg[:12], "len": ln})
+            ctx.check(all(x < (1 << w) for x in dg), key + "|digit-range", {"digits": dg[:12]})
+            E.unchanged([(a, k)], key)
+        if k and need > 1 or (k == 0):
+            too_short("bn_rec_win", key, need, (a, w))
+
+    # ------------------------------------------------------------------ sliding window
+    def rec_slw():
+        w = rng.randrange(2, 9)
+        k = signed_scalar()
+        l = abs(k).bit_length()
+        key = "bn_rec_slw|w%d|%s" % (w, kcls(k))
+        if not ctx.begin(key, [hx(k), w], nontrivial=bool(k)):
+            return
+        R.bn_put(a, k)
+        r, ln, data = buf_call("bn_rec_slw", l + rng.choice([0, 0, 0, 2]), (a, w))
+        if ctx.check(not r.caught, key + "|unexpected-error", {"err": r.err}):
+            dg = list(data[:ln])
+            v = 0
+            for x in dg:
+                v = (v << 1) if x == 0 else ((v << x.bit_length()) | x)
+            ctx.check(ln <= l, key + "|length", {"len": ln, "bound": l})
+            ctx.check(v == abs(k), key + "|decode", {"digits": dg[:12], "len": ln})
+            ctx.check(all(x == 0 or (x & 1 and x < (1 << w)) for x in dg), key + "|digit-range", {"digits": dg[:12]})
+            E.unchanged([(a, k)], key)
+        too_short("bn_rec_slw", key, l, (a, w))
+
+    # ------------------------------------------------------------------ width-w NAF
+    def rec_naf():
+        w = rng.randrange(2, 9)
+        k = signed_scalar()
+        l = abs(k).bit_length()
+        key = "bn_rec_naf|w%d|%s" % (w, kcls(k))
+        if not ctx.begin(key, [hx(k), w], nontrivial=bool(k)):
+            return
+        R.bn_put(a, k)
+        r, ln, data = buf_call("bn_rec_naf", l + 1 + rng.choice([0, 0, 0, 3]), (a, w))
+        if r.caught and l + 1 > (CAP - 1) * W:
+            return      # the recoding needs |k| + digit: at capacity an overflow error is legitimate
+        if ctx.check(not r.caught, key + "|unexpected-error", {"err": r.err}):
+            dg = [s8(x) for x in data[:ln]]
+            ctx.check(ln <= l + 1, key + "|length", {"len": ln, "bound": l + 1})
+            ctx.check(sum(x << i for i, x in enumerate(dg)) == abs(k), key + "|decode", {"digits": dg[:16], "len": ln})
+            ctx.check(all(x == 0 or (x & 1 and abs(x) < (1 << (w - 1))) for x in dg), key + "|digit-range", {"digits": dg[:16]})
+            nz = [i for i, x in enumerate(dg) if x]
+            ctx.check(all(j - i >= w for i, j in zip(nz, nz[1:])), key + "|non-adjacency", {"positions": nz[:12]})
+            E.unchanged([(a, k)], key)
+        too_short("bn_rec_naf", key, l + 1, (a, w))
+
+    # ------------------------------------------------------------------ regular recoding
+    def rec_reg():
+        w = rng.randrange(2, 9)
+        k = abs(scalar(E, MAXB))
+        if rng.random() < 0.85:
+            k |= 1
+        l0 = k.bit_length()
+        n = rng.choice([l0, l0, l0 + 1, l0 + (-l0) % (w - 1), l0 + (-l0) % (w - 1) + 1, max(l0, 256), max(l0, MAXB), l0 + rng.randrange(0, 70)])
+        n = max(n, 1)
+        longer = rng.random() < 0.06 and l0 > 8
+        if longer:
+            n = rng.choice([l0 - 1, l0 // 2, 1, max(1, l0 - W), max(1, l0 - 2 * W)])
+        l = (n + w - 2) // (w - 1)
+        key = "bn_rec_reg|w%d|%s" % (w, "k-longer-than-n" if longer else ("odd" if k & 1 else "even"))
+        if not ctx.begin(key, [hx(k), n, w], nontrivial=bool(k)):
+            return
+        R.bn_put(a, k)
+        r, ln, data = buf_call("bn_rec_reg", l + 1 + rng.choice([0, 0, 0, 2]), (a, n, w))
+        if longer:
+            # outside the domain (k does not fit n bits): an error or any digits, but never more than l + 1 bytes
+            if not r.caught:
+                ctx.check(ln == l + 1, key + "|length", {"len": ln, "bound": l + 1})
+            return
+        if ctx.check(not r.caught, key + "|unexpected-error", {"err": r.err}):
+            dg = [s8(x) for x in data[:ln]]
+            ctx.check(ln == l + 1, key + "|length", {"len": ln, "bound": l + 1})
+            ctx.check(sum(x << ((w - 1) * i) for i, x in enumerate(dg)) == k, key + "|decode", {"digits": dg[:16], "len": ln})
+            if k & 1:
+                ctx.check(all(x & 1 and abs(x) < (1 << (w - 1)) for x in dg[:l]), key + "|not-regular", {"digits": dg[:16]})
+                ctx.check(dg[l] in (0, 1) if len(dg) > l else False, key + "|top-digit", {"top": dg[-1] if dg else None})
+            E.unchanged([(a, k)], key)
+        too_short("bn_rec_reg", key, l + 1, (a, n, w))
+
+    # ------------------------------------------------------------------ joint sparse form
+    def rec_jsf():
+        x, y = signed_scalar(), signed_scalar()
+        if rng.random() < 0.3:
+            y = x + rng.choice([-1, 0, 1])
+        if rng.random() < 0.2:
+            x = rng.choice([0, 1, 2, 3])
+        lx, ly = abs(x).bit_length(), abs(y).bit_length()
+        off = max(lx, ly) + 1
+        key = "bn_rec_jsf|%s,%s|%s" % (kcls(x), kcls(y), "k<l" if lx < ly else ("k=l" if lx == ly else "k>l"))
+        if not ctx.begin(key, [hx(x), hx(y)], nontrivial=bool(x or y)):
+            return
+        R.bn_put(a, x)
+        R.bn_put(b, y)
+        r, ln, data = buf_call("bn_rec_jsf", 2 * off, (a, b))
+        if r.caught and off > (CAP - 1) * W:
+            return
+        if ctx.check(not r.caught, key + "|unexpected-error", {"err": r.err}):
+            ctx.check(ln <= off, key + "|length", {"len": ln, "bound": off})
+            u0 = [s8(v) for v in data[:ln]]
+            u1 = [s8(v) for v in data[off:off + ln]]
+            ctx.check(sum(v << i for i, v in enumerate(u0)) == abs(x) and sum(v << i for i, v in enumerate(u1)) == abs(y),
+                      key + "|decode", {"u0": u0[:12], "u1": u1[:12], "len": ln})
+            ctx.check(all(v in (-1, 0, 1) for v in u0 + u1), key + "|digit-range", None)
+            # Solinas' joint sparse form: of any three consecutive columns at least one is zero; adjacent non-zero terms
+            # of a row have the same sign... (JSF-1, JSF-2, JSF-3)
+            p1 = all(any(u0[i + j] == 0 and u1[i + j] == 0 for j in range(3)) for i in range(max(0, ln - 2)))
+            p2 = all(u[i] * u[i + 1] != -1 for u in (u0, u1) for i in range(ln - 1))
+            p3 = all(not (u[i] and u[i + 1]) or (o[i + 1] != 0 and o[i] == 0) for u, o in ((u0, u1), (u1, u0)) for i in range(ln - 1))
+            ctx.check(p1 and p2 and p3, key + "|not-joint-sparse", {"jsf1": p1, "jsf2": p2, "jsf3": p3, "u0": u0[:16], "u1": u1[:16]})
+            E.unchanged([(a, x), (b, y)], key)
+        # documented minimum is 2*bits(k) + 1: with a buffer that small and l not longer than k the call must still be safe
+        if ly <= lx and lx:
+            need = 2 * lx + 1
+            rr, ln2, data2 = buf_call("bn_rec_jsf", need - 1, (a, b))
+            ctx.check(rr.caught and rr.err == NB, key + "|short-buffer-accepted", {"need": need})
+
+    # ------------------------------------------------------------------ tau-adic
+    tables = {}
+
+    def tnaf_tables(u, w):
+        """beta, gamma, t_w from bn_rec_tnaf_get, validated: t_w is a root of x^2 - u*x + 2 mod 2^w and
+        beta_i + gamma_i * t_w = 2i + 1 (mod 2^w), i.e. alpha_(2i+1) = 2i+1 (mod tau^w)"""
+        if (u, w) in tables:
+            return tables[(u, w)]
+        n = 1 << (w - 2)
+        pt, pb, pg = R.mem(1, FILL), R.mem(n, FILL), R.mem(n, FILL)
+        key = "bn_rec_tnaf_get|u%d|w%d" % (u, w)
+        res = None
+        if ctx.begin(key, [u, w]):
+            r = R.call("bn_rec_tnaf_get", pt, pb, pg, u, w)
+            if ctx.check(not r.caught, key + "|unexpected-error", {"err": r.err}):
+                tw = R.get(pt, 1)[0]
+                beta = [s8(x) for x in R.get(pb, n)]
+                gama = [s8(x) for x in R.get(pg, n)]
+                ok1 = ctx.check((tw * tw - u * tw + 2) % (1 << w) == 0, key + "|t_w", {"t_w": tw})
+                ok2 = ctx.check(all((beta[i] + gama[i] * tw - (2 * i + 1)) % (1 << w) == 0 for i in range(n)), key + "|alpha-table",
+                                {"beta": beta, "gama": gama, "t_w": tw})
+                if ok1 and ok2:
+                    res = (tw, beta, gama)
+            ctx.end()
+        for p in (pt, pb, pg):
+            R.free(p)
+        tables[(u, w)] = res
+        return res
+
+    MS = [7, 13, 41, 97, 163, 233, 283] + ([] if E.w8 else [409, 571])
+
+    def tnaf_mod_lib(k, u, mm):
+        R.bn_put(a, k)
+        E.junk(c, d)
+        r = R.call("bn_rec_tnaf_mod", c, d, a, u, mm)
+        if r.caught:
+            return None
+        return R.bn_get(c), R.bn_get(d)
+
+    def rec_tnaf_mod():
+        u = rng.choice([-1, 1])
+        mm = rng.choice(MS)
+        k = scalar(E, mm)
+        if rng.random() < 0.1:
+            k = -k
+        key = "bn_rec_tnaf_mod|u%d|%s" % (u, kcls(k))
+        if not ctx.begin(key, [hx(k), u, mm], nontrivial=bool(k)):
+            return
+        res = tnaf_mod_lib(k, u, mm)
+        if not ctx.check(res is not None, key + "|unexpected-error", None):
+            return
+        (r0, _, _, n0), (r1, _, _, n1) = res
+        ctx.check(n0 and n1, key + "|normal-form", repr(res))
+        delta = nt.tau_delta(mm, u)
+        ctx.check(nt.tau_divides(delta, (abs(k) - r0, -r1), u), key + "|not-congruent", {"r0": hx(r0), "r1": hx(r1)})
+        E.unchanged([(a, k)], key)
+
+    def alpha(dg, tab, w):
+        """element of Z[tau] denoted by a signed odd digit"""
+        if dg == 0:
+            return (0, 0)
+        if w == 2:
+            return (dg, 0)
+        tw, beta, gama = tab
+        i = abs(dg) >> 1
+        s = 1 if dg > 0 else -1
+        return (s * beta[i], s * gama[i])
+
+    def rec_tnaf():
+        u = rng.choice([-1, 1])
+        w = rng.randrange(2, 9)
+        mm = rng.choice(MS)
+        tab = tnaf_tables(u, w)
+        if tab is None:
+            return
+        k = scalar(E, mm)
+        if k.bit_length() < mm // 2:
+            k |= 1 << (mm - 1 - rng.randrange(0, 3))       # short scalars: the length check of the routine is bits(k) + 1
+        if rng.random() < 0.1:                                # while the recoding has about m digits (fatal part)
+            k = -k
+        key = "bn_rec_tnaf|u%d|w%d|%s" % (u, w, kcls(k))
+        if not ctx.begin(key, [hx(k), u, mm, w], nontrivial=bool(k)):
+            return
+        res = tnaf_mod_lib(k, u, mm)
+        R.bn_put(a, k)
+        cap = max(abs(k).bit_length() + 1, mm + 8)
+        r, ln, data = buf_call("bn_rec_tnaf", cap, (a, u, mm, w))
+        if ctx.check(not r.caught, key + "|unexpected-error", {"err": r.err}):
+            dg = [s8(x) for x in data[:ln]]
+            ctx.check(all(x == 0 or (x & 1 and abs(x) < (1 << (w - 1))) for x in dg), key + "|digit-range", {"digits": dg[:16]})
+            nz = [i for i, x in enumerate(dg) if x]
+            ctx.check(all(j - i >= w for i, j in zip(nz, nz[1:])), key + "|non-adjacency", {"positions": nz[:12]})
+            val = nt.tau_eval([alpha(x, tab, w) for x in dg], u)
+            delta = nt.tau_delta(mm, u)
+            ctx.check(nt.tau_divides(delta, (abs(k) - val[0], -val[1]), u), key + "|decode-not-congruent-mod-delta", {"value": [hx(val[0]), hx(val[1])], "len": ln})
+            if res is not None:
+                ctx.check((res[0][0], res[1][0]) == val, key + "|differs-from-tnaf_mod", {"value": [hx(val[0]), hx(val[1])]})
+            ctx.add("tnaf_len_minus_m_max_seen_sum", 0)
+            tl = ctx.info.get("tnaf_max_len_minus_m", "-99")
+            if ln - mm > int(tl):
+                ctx.note("tnaf_max_len_minus_m", str(ln - mm))
+            E.unchanged([(a, k)], key)
+
+    def rec_rtnaf():
+        u = rng.choice([-1, 1])
+        w = rng.randrange(2, 9)
+        mm = rng.choice(MS)
+        tab = tnaf_tables(u, w)
+        if tab is None:
+            return
+        # domain (as in the stock test): both halves of the partial reduction are odd
+        for _ in range(40):
+            k = scalar(E, mm) | (1 << (mm - 1 - rng.randrange(0, 2)))
+            res = tnaf_mod_lib(k, u, mm)
+            if res is not None and res[0][0] is not None and res[0][0] & 1 and res[1][0] & 1:
+                break
+        else:
+            return
+        key = "bn_rec_rtnaf|u%d|w%d" % (u, w)
+        if not ctx.begin(key, [hx(k), u, mm, w]):
+            return
+        l = (mm + 2 + w - 2) // (w - 1)
+        R.bn_put(a, k)
+        cap = max(k.bit_length() + 1, l + 3)
+        r, ln, data = buf_call("bn_rec_rtnaf", cap, (a, u, mm, w))
+        if ctx.check(not r.caught, key + "|unexpected-error", {"err": r.err}):
+            dg = [s8(x) for x in data[:ln]]
+            ctx.check(l <= ln <= l + 2, key + "|length", {"len": ln, "l": l})
+            ctx.check(all(x & 1 and abs(x) < (1 << (w - 1)) + (1 if w == 2 else 0) for x in dg[:l]), key + "|not-regular", {"digits": dg[:16]})
+            val = nt.tau_eval([alpha(x, tab, w) for x in dg], u, step=w - 1)
+            ctx.check((res[0][0], res[1][0]) == val, key + "|decode", {"value": [hx(val[0]), hx(val[1])], "r0": hx(res[0][0]), "r1": hx(res[1][0])})
+            E.unchanged([(a, k)], key)
+
+    # ------------------------------------------------------------------ GLV / Frobenius / SAC on the endomorphism curves
+    curves = {}
+
+    def curve(name):
+        """activate an endomorphism curve; -> dict(n, lam, v1, v2, x) or None"""
+        if name in curves:
+            cu = curves[name]
+            if cu is not None:
+                R.call("ep_param_set", cu["id"])
+            return cu
+        from ..model import curves as mc
+        cu = None
+        ident = R.E.get(name)
+        r = R.call("ep_param_set", ident) if ident is not None else None
+        if r is not None and not r.caught and R.L.ep_curve_is_endom():
+            P = R.ep_params()
+            R.L.ep_curve_get_beta.restype = ctypes.c_void_p
+            beta = R.fp_get(R.L.ep_curve_get_beta())[0]
+            n, p = P["n"], P["p"]
+            s3 = mc.sqrt_mod(n - 3, n)
+            lam = None
+            if s3 is not None and P["a"] == 0:
+                C = mc.WCurve(mc.Fp(p), P["a"], P["b"])
+                G = (P["gx"], P["gy"])
+                for cand in ((-1 + s3) * pow(2, -1, n) % n, (-1 - s3) * pow(2, -1, n) % n):
+                    Q = C.mul(cand, G)
+                    if Q is not None and Q[0] == beta * G[0] % p and Q[1] == G[1]:
+                        lam = cand
+            R.bn_put(a, 0)
+            R.call("fp_prime_get_par", a)
+            cu = dict(id=ident, n=n, p=p, lam=lam, x=R.bn_val(a), pairf=P["pairf"], name=name)
+        curves[name] = cu
+        ctx.note("glv_curve_" + name, "lambda found with the model curve" if cu and cu["lam"] is not None else "not usable")
+        return cu
+
+    def rec_glv(cu):
+        if cu is None or cu["lam"] is None:
+            return
+        n, lam = cu["n"], cu["lam"]
+        c_ = rng.randrange(10)
+        if c_ == 0:
+            k = rng.choice([0, 1, 2, 3, n - 1, n - 2, n // 2, n // 2 + 1, lam, lam - 1, lam + 1, (lam * lam) % n])
+        elif c_ == 1:
+            k = scalar(E, n.bit_length() - 1)
+        elif c_ == 2:
+            k = rng.choice([n, n + 1, (1 << n.bit_length()) - 1, (1 << (R.K["RLC_FP_DIGS"] * W)) - 1])
+        else:
+            k = rng.randrange(n)
+        neg = rng.random() < 0.1
+        alias = rng.random() < 0.3
+        key = "bn_rec_glv|%s|%s|%s" % (cu["name"], "k<n" if k < n else "k>=n", "neg" if neg else "pos")
+        if not ctx.begin(key, [hx(-k if neg else k), int(alias)], nontrivial=bool(k)):
+            return
+        R.bn_put(a, -k if neg else k)
+        R.bn_put(m, n)
+        E.junk(c, d)
+        v1 = R.call("ep_curve_get_v1").r
+        v2 = R.call("ep_curve_get_v2").r
+        k0p = a if alias else c
+        r = R.call("bn_rec_glv", k0p, d, a, m, v1, v2)
+        if ctx.check(not r.caught, key + "|unexpected-error", {"err": r.err}):
+            g0, g1 = R.bn_get(k0p), R.bn_get(d)
+            if ctx.check(g0[0] is not None and g1[0] is not None and g0[3] and g1[3], key + "|normal-form", repr((g0, g1))):
+                ctx.check((g0[0] + g1[0] * lam - k) % n == 0, key + "|decode", {"k0": hx(g0[0]), "k1": hx(g1[0])})
+                if k < n:
+                    bound = 1 + (n.bit_length() >> 1)
+                    ctx.check(abs(g0[0]).bit_length() <= bound and abs(g1[0]).bit_length() <= bound, key + "|length",
+                              {"k0_bits": abs(g0[0]).bit_length(), "k1_bits": abs(g1[0]).bit_length(), "bound": bound})
+            E.unchanged([(m, n)], key)
+
+    def rec_frb(cu=None):
+        cof = cu is not None
+        if cof:
+            n, x, p = cu["n"], cu["x"], cu["p"]
+            if n != 36 * x ** 4 + 36 * x ** 3 + 18 * x ** 2 + 6 * x + 1:
+                ctx.note("frb_bn_parameter", "order is not the BN polynomial in the reported parameter: class skipped")
+                return
+            lam = p % n          # eigenvalue of the Frobenius on the order-n subgroup of the twist
+            k = rng.choice([0, 1, 2, n - 1, n // 2, rng.randrange(n), rng.randrange(n), rng.randrange(n), scalar(E, n.bit_length() - 1)])
+            key = "bn_rec_frb|bn|sub4"
+            sub = 4
+        else:
+            x = rng.choice([-(2 ** 63 + 2 ** 62 + 2 ** 60 + 2 ** 57 + 2 ** 48 + 2 ** 16), 0x44E992B44A6909F1, 2, 3, -2, -3, B - 1, B, -B, E.mag(2) or 5,
+                            -(E.mag(1) or 7), rng.getrandbits(64) | 2])
+            if abs(x) < 2:
+                x = 2
+            sub = rng.choice([1, 2, 4, 6, 8])
+            k = rng.randrange(abs(x) ** sub)
+            if rng.random() < 0.3:
+                k = rng.choice([0, 1, abs(x) - 1, abs(x), abs(x) + 1, abs(x) ** sub - 1, abs(x) ** (sub - 1)]) % (abs(x) ** sub)
+            if rng.random() < 0.2:
+                k = -k
+            n = abs(x) ** sub + 1
+            key = "bn_rec_frb|base-x|%s|%s" % ("x<0" if x < 0 else "x>0", kcls(k))
+        if k.bit_length() > (CAP // 2 - 1) * W:
+            return
+        if not ctx.begin(key, [hx(k), hx(x), sub], nontrivial=bool(k)):
+            return
+        arr = E.arr_new(max(sub, 4))
+        try:
+            for i in range(max(sub, 4)):
+                R.bn_put(E.arr_at(arr, i), rng.getrandbits(66) | 1)
+            alias = rng.random() < 0.5      # every caller passes k = ki[0]
+            if alias:
+                R.bn_put(arr, k)
+                kp = arr
+            else:
+                R.bn_put(a, k)
+                kp = a
+            R.bn_put(b, x)
+            R.bn_put(m, n)
+            r = R.call("bn_rec_frb", arr, sub, kp, b, m, int(cof))
+            if not ctx.check(not r.caught, key + "|unexpected-error", {"err": r.err}):
+                return
+            got = [R.bn_get(E.arr_at(arr, i)) for i in range(sub)]
+            if not ctx.check(all(g[0] is not None and g[3] for g in got), key + "|normal-form", repr(got)):
+                return
+            ki = [g[0] for g in got]
+            det = {"ki": [hx(v) for v in ki]}
+            if cof:
+                ctx.check((sum(v * pow(lam, i, n) for i, v in enumerate(ki)) - k) % n == 0, key + "|decode", det)
+                ctx.check(all(abs(v).bit_length() <= n.bit_length() // 4 + 3 for v in ki), key + "|length", det)
+            else:
+                ctx.check(sum(v * x ** i for i, v in enumerate(ki)) == k, key + "|decode", det)
+                ctx.check(all(abs(v) < abs(x) for v in ki), key + "|digit-range", det)
+        finally:
+            R.free(arr)
+
+    def rec_sac():
+        mm = rng.choice([1, 2, 4, 6, 8])
+        cc = 1
+        nbits = rng.choice([64, 128, 254, 256])
+        l = (nbits + cc * mm - 1) // (cc * mm) + 1
+        ubits = rng.choice([1, 8, min(l - 1, 63), min(l - 1, 64)])
+        uu = rng.getrandbits(ubits) | (1 << (ubits - 1))
+        cof = rng.random() < 0.3
+        ks = []
+        for i in range(mm):
+            kb = rng.choice([l - 1, l - 1, l - 2, 1, max(1, l // 2)])
+            v = rng.getrandbits(kb)
+            if rng.random() < 0.2:
+                v = rng.choice([0, 1, (1 << kb) - 1, 1 << (kb - 1)])
+            ks.append(v)
+        ks[0] |= 1
+        L = max(l, uu.bit_length() + 1)
+        if cof:
+            L = max([L] + [v.bit_length() + 1 for v in ks])
+        key = "bn_rec_sac|m%d|%s" % (mm, "cof" if cof else "nocof")
+        if not ctx.begin(key, [[hx(v) for v in ks], hx(uu), mm, nbits, int(cof)]):
+            return
+        arr = E.arr_new(mm)
+        cap = L + 1
+        total = max(mm * L, cap)
+        buf = R.mem(total, FILL)
+        try:
+            for i, v in enumerate(ks):
+                R.bn_put(E.arr_at(arr, i), v)
+            R.bn_put(b, uu)
+            E.setlen(cap)
+            r = R.call("bn_rec_sac", buf, E.lenp, arr, b, cc, mm, nbits, int(cof))
+            if not ctx.check(not r.caught, key + "|unexpected-error", {"err": r.err}):
+                return
+            ln = E.getlen()
+            data = R.get(buf, total)
+            if not ctx.check(ln == L, key + "|length", {"len": ln, "expected": L}):
+                return
+            rows = [list(data[j * ln:(j + 1) * ln]) for j in range(mm)]
+            ctx.check(all(v in (0, 1) for row in rows for v in row), key + "|digit-range", None)
+            sgn = [1 - 2 * v for v in rows[0]]
+            ctx.check(rows[0][ln - 1] == 0 and sum(s << i for i, s in enumerate(sgn)) == ks[0], key + "|sign-row-decode", {"row0": rows[0][:16]})
+            for j in range(1, mm):
+                ctx.check(sum((rows[j][i] * sgn[i]) << i for i in range(ln)) == ks[j], key + "|decode", {"row": j, "digits": rows[j][:16], "k": hx(ks[j])})
+            for i, v in enumerate(ks):
+                E.unchanged([(E.arr_at(arr, i), v)], key)
+        finally:
+            R.free(arr)
+            R.free(buf)
+        # a per-row capacity equal to the length is refused
+        buf = R.mem(total, FILL)
+        E.setlen((nbits + cc * mm - 1) // (cc * mm) + 1)
+        arr = E.arr_new(mm)
+        for i, v in enumerate(ks):
+            R.bn_put(E.arr_at(arr, i), v)
+        r = R.call("bn_rec_sac", buf, E.lenp, arr, b, cc, mm, nbits, int(cof))
+        ctx.check(r.caught and r.err == NB, key + "|short-buffer-accepted", None)
+        R.free(arr)
+        R.free(buf)
+
+    ops = ([rec_win] * 5 + [rec_slw] * 4 + [rec_naf] * 6 + [rec_reg] * 5 + [rec_jsf] * 4 + [rec_tnaf_mod] * 2 + [rec_tnaf] * 4 + [rec_rtnaf] * 2 +
+           [rec_frb] * 2 + [rec_sac] * 3)
+    N = ctx.n(1500 if E.w8 else 3000, 60000)
+    for _ in range(N):
+        E.newpoison()
+        guard(ctx, rng.choice(ops))
+    # curve-bound recodings: one activation per curve (ep_param_set costs milliseconds to seconds)
+    for name in ("SECG_K256", "BN_P256", "SM9_P256"):
+        cu = curve(name)
+        for _ in range(ctx.n(60 if E.w8 else 150, 4000)):
+            E.newpoison()
+            guard(ctx, lambda: rec_glv(cu))
+        if name == "BN_P256" and cu is not None:
+            for _ in range(ctx.n(60 if E.w8 else 150, 4000)):
+                E.newpoison()
+                guard(ctx, lambda: rec_frb(cu))
+
+
+# =============================================================================================== part "fatal"
+def run_fatal(E):
+    """directed cases that abort or never return on the unchanged tree; each class has its own key and the worker is
+    sacrificial (the harness restarts it with the key skipped)"""
+    ctx, R, rng, W, B, CAP, K = E.ctx, E.R, E.rng, E.W, E.B, E.CAP, E.K
+    a, b, c, d, e, f, m, t0, t1, t2 = E.pool
+
+    def case(key, desc, body, budget=10):
+        def one():
+            if not ctx.begin(key, desc, budget=budget):
+                return
+            body(key)
+        guard(ctx, one)
+
+    if ctx.cfg == "asan256k":
+        # Paillier CRT decryption on a build whose bn_mxp is bn_mxp_basic: bn_mxp(t, a, b, t) inside bn_mxp_crt
+        def paillier(key):
+            p, q = nt.rand_prime(rng, 64), nt.rand_prime(rng, 64)
+            n = p * q
+            msg = rng.randrange(n)
+            rr = rng.randrange(2, n)
+            base = (1 + msg * n) * pow(rr, n, n * n) % (n * n)
+            S = R.S
+            S.vf_crt_new.restype = ctypes.c_void_p
+            S.vf_crt_field.restype = ctypes.c_void_p
+            S.vf_crt_field.argtypes = [ctypes.c_void_p, ctypes.c_int]
+            S.vf_deref.restype = ctypes.c_void_p
+            S.vf_deref.argtypes = [ctypes.c_void_p]
+            crt = S.vf_crt_new()
+            hp = pow((pow(n + 1, p - 1, p * p) - 1) // p, -1, p)
+            hq = pow((pow(n + 1, q - 1, q * q) - 1) // q, -1, q)
+            for i, v in enumerate([n, p, q, hp, hq, pow(q, -1, p)]):
+                R.bn_put(S.vf_crt_field(crt, i), v)
+            R.bn_put(a, base)
+            R.bn_put(b, p - 1)
+            R.bn_put(c, q - 1)
+            E.junk(d)
+            r = R.call("bn_mxp_crt", d, a, b, c, S.vf_deref(crt), 1)
+            if ctx.check(not r.caught, key + "|unexpected-error", {"err": r.err}):
+                E.out_bn(d, msg, key)
+        for _ in range(3):
+            case("bn_mxp_crt|%s|mod-n^2|paillier" % R.target("bn_mxp"), ["64-bit primes"], paillier, budget=5)
+        return
+
+    if ctx.shard == 0:
+        # documented for a > 2, but 1 and 2 are ordinary integers a caller may ask about: must terminate
+        def solov(n):
+            def body(key):
+                R.bn_put(a, n)
+                r = R.call("bn_is_prime_solov", a)
+                ctx.check(r.i == int(n == 2) and not r.caught, key + "|value", {"ret": r.i, "n": n})
+            return body
+        case("bn_is_prime_solov|n<3", [1], solov(1), budget=20)
+        case("bn_is_prime_solov|n<3", [2], solov(2), budget=20)
+        return
+
+    # ---- shard 1
+    # "d ... can be NULL" (relic_bn.h) for every extended gcd
+    def dnull(fn):
+        def body(key):
+            R.bn_put(a, 240)
+            R.bn_put(b, 46)
+            E.junk(c, e)
+            r = R.call(fn, c, 0, e, a, b) if fn != "bn_gcd_ext_dig" else R.call(fn, c, 0, e, a, 46)
+            if ctx.check(not r.caught, key + "|unexpected-error", {"err": r.err}):
+                ctx.check(R.bn_val(c) == 2 and (2 - R.bn_val(e) * 46) % 240 == 0, key + "|value", {"c": hx(R.bn_val(c) or 0), "e": hx(R.bn_val(e) or 0)})
+        return body
+    for fn in ("bn_gcd_ext_basic", "bn_gcd_ext_lehme", "bn_gcd_ext_binar", "bn_gcd_ext_dig"):
+        case("%s|d-null" % fn, [fn, "a=240 b=46 d=NULL"], dnull(fn))
+
+    # the length check of the tau-adic recodings looks at bits(k) + 1 although the recoding of a short k has about
+    # 2*bits(k) digits: a buffer of exactly the checked size
+    def tnaf_short(fn, k, w):
+        def body(key):
+            R.bn_put(a, k)
+            cap = k.bit_length() + 1
+            buf = R.mem(cap, 0x55)
+            E.setlen(cap)
+            r = R.call(fn, buf, E.lenp, a, 1, 163, w)
+            ln = E.getlen()
+            ctx.check(r.caught or ln <= cap, key + "|length", {"len": ln, "cap": cap})
+            R.free(buf)
+        return body
+    for k, w in ((7, 4), (1000, 4), (0xFFFF, 5)):
+        case("bn_rec_tnaf|len=bits+1|k-short", [hx(k), w], tnaf_short("bn_rec_tnaf", k, w))
+    for k, w in ((0x7FF, 4), (0xFFFF, 5)):
+        case("bn_rec_rtnaf|len=bits+1|k-short", [hx(k), w], tnaf_short("bn_rec_rtnaf", k, w))
+
+    # bn_rec_jsf checks *len against bits(k) only
+    def jsf_short(key):
+        R.bn_put(a, 1)
+        R.bn_put(b, (1 << 200) - 1)
+        buf = R.mem(3, 0x55)
+        E.setlen(3)
+        r = R.call("bn_rec_jsf", buf, E.lenp, a, b)
+        ctx.check(r.caught and r.err == K["ERR_NO_BUFFER"], key + "|short-buffer-accepted", {"len": E.getlen()})
+        R.free(buf)
+    case("bn_rec_jsf|len=2bits(k)+1|l-longer", ["k=1", "l=2^200-1", "len=3"], jsf_short)
+
+    # bn_mxp_basic(c, a, b, m) with c == m (the pattern bn_mxp_crt uses): the modulus is overwritten before use
+    def mxp_alias_m(key):
+        mm = (1 << 127) - 1
+        R.bn_put(a, 3)
+        R.bn_put(b, 65537)
+        R.bn_put(m, mm)
+        r = R.call("bn_mxp_basic", m, a, b, m)
+        if ctx.check(not r.caught, key + "|unexpected-error", {"err": r.err}):
+            E.out_bn(m, pow(3, 65537, mm), key)
+    case("bn_mxp_basic|alias3-modulus", ["3^65537 mod 2^127-1, c == m"], mxp_alias_m, budget=5)
+
+    # bn_mxp_crt reduces m1 - m2 modulo p by adding p until the value is non-negative: q >> p never finishes
+    def crt_unbalanced(key):
+        p, q = 65537, (1 << 127) - 1
+        n = p * q
+        x, base = 0x123456789ABCDEF, 0xFEDCBA987654321
+        S = R.S
+        S.vf_crt_new.restype = ctypes.c_void_p
+        S.vf_crt_field.restype = ctypes.c_void_p
+        S.vf_crt_field.argtypes = [ctypes.c_void_p, ctypes.c_int]
+        S.vf_deref.restype = ctypes.c_void_p
+        S.vf_deref.argtypes = [ctypes.c_void_p]
+        crt = S.vf_crt_new()
+        for i, v in enumerate([n, p, q, x % (p - 1), x % (q - 1), pow(q, -1, p)]):
+            R.bn_put(S.vf_crt_field(crt, i), v)
+        R.bn_put(a, base)
+        R.bn_put(b, x % (p - 1))
+        R.bn_put(c, x % (q - 1))
+        E.junk(d)
+        r = R.call("bn_mxp_crt", d, a, b, c, S.vf_deref(crt), 0)
+        if ctx.check(not r.caught, key + "|unexpected-error", {"err": r.err}):
+            E.out_bn(d, pow(base, x, n), key)
+    case("bn_mxp_crt|q>>p", ["p=65537", "q=2^127-1"], crt_unbalanced, budget=5)
+
+    def alive(key):
+        R.bn_put(a, 91)
+        R.bn_put(b, 35)
+        r = R.call("bn_gcd_basic", c, a, b)
+        ctx.check(not r.caught and R.bn_val(c) == 7, key + "|value", None)
+    case("bn_gcd_basic|after-fatal-cases", [91, 35], alive)
 
 
 def run(ctx, part):
